@@ -487,3 +487,389 @@ Theorem lcd_obj_line_shape d k :
   lcd_obj_line d k =
   class_text (class_of d) ++ [32] ++ lcd_ident k (l_name d) ++ [40] ++ commas (lcd_ctor_args d) ++ [41; 59].
 Proof. unfold lcd_obj_line, lcd_class, class_of. destruct (l_i2c d); reflexivity. Qed.
+
+(* ================================================================== pass 2: name -> display object *)
+Section ItemInd.
+  Variable P : item -> Prop.
+  Hypothesis Hservo : forall d, P (IServo d).
+  Hypothesis Hlcd : forall d, P (ILcd d).
+  Hypothesis Hother : P IOther.
+  Hypothesis Hplain : P IPlain.
+  Hypothesis Hcmd : forall n, P (ICmd n).
+  Hypothesis Hblock : forall bl, Forall (Forall P) bl -> P (IBlock bl).
+
+  Fixpoint item_ind' (it : item) : P it :=
+    let fix go (l : list item) : Forall P l :=
+      match l with [] => Forall_nil _ | x :: r => Forall_cons _ (item_ind' x) (go r) end in
+    let fix gos (ls : list (list item)) : Forall (Forall P) ls :=
+      match ls with [] => Forall_nil _ | l :: r => Forall_cons _ (go l) (gos r) end in
+    match it with
+    | IServo d => Hservo d
+    | ILcd d => Hlcd d
+    | IOther => Hother
+    | IPlain => Hplain
+    | ICmd n => Hcmd n
+    | IBlock bl => Hblock bl (gos bl)
+    end.
+End ItemInd.
+
+Lemma thread_cons {A S O} (f : S -> A -> list O * S) st x r :
+  thread f st (x :: r) = let '(o, s) := f st x in let '(o', s') := thread f s r in (o ++ o', s').
+Proof. reflexivity. Qed.
+
+(* a step that leaves the state alone on every element: the outputs are concatenated *)
+Lemma thread_pure {A S O} (f : S -> A -> list O * S) (g : A -> list O) st l :
+  Forall (fun x => f st x = (g x, st)) l -> thread f st l = (flat_map g l, st).
+Proof.
+  induction 1 as [| x r Hx _ IH]; [reflexivity |].
+  rewrite thread_cons, Hx, IH. reflexivity.
+Qed.
+
+(* the entries of lcd_state agree with the reference: a name declared c > 0 times so far maps to
+   the object with index c - 1 *)
+Definition inv (seen : list text) (c : cur) : Prop :=
+  forall n, 0 < count_t n seen -> tlookup n c = Some (count_t n seen - 1).
+
+(* lcd_state knows only names that were declared *)
+Definition dom (seen : list text) (c : cur) : Prop :=
+  forall n k, tlookup n c = Some k -> 0 < count_t n seen.
+
+(* an item without LCD declarations leaves lcd_state alone, and its commands address the
+   reference objects *)
+Lemma res_item_free bs seen c : forall it top o,
+  lcd_free it = true -> inv seen c ->
+  cmds_declared seen it = true \/ dom seen c ->
+  res_item bs top (mkR c o) it = (spec_item seen it, mkR c o).
+Proof.
+  intro it. induction it as [d | d | | | n | bl IH] using item_ind'; intros top o Hfree Hinv Hok;
+    try reflexivity.
+  - discriminate.
+  - cbn [res_item spec_item r_cur].
+    destruct (0 <? count_t n seen) eqn:Ec.
+    + apply Z.ltb_lt in Ec. rewrite (Hinv n Ec). reflexivity.
+    + destruct (tlookup n c) as [k |] eqn:El; [| reflexivity].
+      destruct Hok as [Hd | Hd].
+      * cbn [cmds_declared] in Hd. congruence.
+      * apply Hd in El. apply Z.ltb_lt in El. congruence.
+  - cbn [res_item spec_item]. cbn [lcd_free] in Hfree.
+    apply thread_pure. rewrite Forall_forall. intros b Hb.
+    apply thread_pure. rewrite Forall_forall. intros x Hx.
+    rewrite Forall_forall in IH. specialize (IH b Hb). rewrite Forall_forall in IH.
+    rewrite forallb_forall in Hfree. specialize (Hfree b Hb). rewrite forallb_forall in Hfree.
+    apply IH; [exact Hx | apply Hfree; exact Hx | exact Hinv |].
+    destruct Hok as [Hd | Hd]; [left | right; exact Hd].
+    cbn [cmds_declared] in Hd. rewrite forallb_forall in Hd. specialize (Hd b Hb).
+    rewrite forallb_forall in Hd. apply Hd. exact Hx.
+Qed.
+
+Lemma res_items_free bs seen c top o l :
+  forallb lcd_free l = true -> inv seen c -> dom seen c ->
+  res_items bs top (mkR c o) l = (flat_map (spec_item seen) l, mkR c o).
+Proof.
+  intros Hfree Hinv Hdom. unfold res_items. apply thread_pure. rewrite Forall_forall. intros x Hx.
+  rewrite forallb_forall in Hfree. apply res_item_free; auto.
+Qed.
+
+(* ---- the bindings of pass 1 *)
+Lemma top_lcd_names_app a b : top_lcd_names (a ++ b) = top_lcd_names a ++ top_lcd_names b.
+Proof.
+  induction a as [| x r IH]; [reflexivity |]. destruct x; cbn [app top_lcd_names]; try exact IH.
+  now rewrite IH.
+Qed.
+
+Definition nlcd (l : list item) : Z := Z.of_nat (length (top_lcd_names l)).
+
+Lemma nlcd_nonneg l : 0 <= nlcd l.
+Proof. unfold nlcd. lia. Qed.
+
+Lemma bindings_from_ord l : forall o seen b,
+  In b (bindings_from o seen l) -> o <= b_ord b < o + nlcd l.
+Proof.
+  unfold nlcd. induction l as [| x r IH]; intros o seen b Hin; [destruct Hin |].
+  destruct x; cbn [bindings_from top_lcd_names] in *; try (apply IH in Hin; exact Hin).
+  cbn [length]. rewrite Nat2Z.inj_succ. destruct Hin as [<- | Hin]; [cbn [b_ord]; lia |].
+  apply IH in Hin. lia.
+Qed.
+
+Lemma bindings_from_names l : forall o seen, map b_name (bindings_from o seen l) = top_lcd_names l.
+Proof.
+  induction l as [| x r IH]; intros o seen; [reflexivity |].
+  destruct x; cbn [bindings_from top_lcd_names map b_name]; try apply IH. now rewrite IH.
+Qed.
+
+Lemma bindings_from_app a : forall o seen b,
+  exists seen', bindings_from o seen (a ++ b) = bindings_from o seen a ++ bindings_from (o + nlcd a) seen' b /\
+                forall x, count_t x seen' = count_t x (top_lcd_names a) + count_t x seen.
+Proof.
+  unfold nlcd. induction a as [| n r IH]; intros o seen b.
+  - exists seen. cbn [app bindings_from top_lcd_names length]. rewrite Z.add_0_r.
+    split; [reflexivity | intro x; cbn; lia].
+  - destruct n; cbn [app bindings_from top_lcd_names];
+      try (destruct (IH o seen b) as [s' [E C]]; exists s'; split; [exact E | exact C]).
+    destruct (IH (o + 1) (l_name d :: seen) b) as [s' [E C]]. exists s'. split.
+    + rewrite E. cbn [length app]. rewrite Nat2Z.inj_succ.
+      replace (o + Z.succ (Z.of_nat (length (top_lcd_names r)))) with (o + 1 + Z.of_nat (length (top_lcd_names r))) by lia.
+      reflexivity.
+    + intro x. rewrite C. cbn [count_t]. lia.
+Qed.
+
+Lemma find_skip {A} (f : A -> bool) a b :
+  (forall x, In x a -> f x = false) -> find f (a ++ b) = find f b.
+Proof.
+  induction a as [| y r IH]; intro H; [reflexivity |].
+  cbn [app find]. rewrite (H y (or_introl eq_refl)). apply IH. intros x Hx. apply H. right. exact Hx.
+Qed.
+
+(* _register_lcd finds the binding pass 1 made for this very declaration *)
+Lemma find_binding pre d post :
+  find (fun b => text_eqb (b_name b) (l_name d) && (b_ord b =? nlcd pre))
+       (bindings_from 0 [] (pre ++ ILcd d :: post)) =
+  Some (mkB (nlcd pre) (l_name d) (count_t (l_name d) (top_lcd_names pre))).
+Proof.
+  destruct (bindings_from_app pre 0 [] (ILcd d :: post)) as [s' [E C]]. rewrite E.
+  rewrite find_skip.
+  - cbn [bindings_from find b_name b_ord]. rewrite text_eqb_refl, Z.add_0_l, Z.eqb_refl. cbn [andb].
+    rewrite C. cbn [count_t]. rewrite Z.add_0_r. reflexivity.
+  - intros b Hb. apply bindings_from_ord in Hb.
+    replace (b_ord b =? nlcd pre) with false; [apply andb_false_r |]. symmetry. apply Z.eqb_neq. lia.
+Qed.
+
+Lemma tlookup_cons_same {A} n (k : A) c : tlookup n ((n, k) :: c) = Some k.
+Proof. cbn [tlookup]. now rewrite text_eqb_refl. Qed.
+
+Lemma tlookup_cons_other {A} n m (k : A) c : n <> m -> tlookup n ((m, k) :: c) = tlookup n c.
+Proof.
+  intro H. cbn [tlookup]. destruct (text_eqb n m) eqn:E; [apply text_eqb_eq in E; contradiction | reflexivity].
+Qed.
+
+Lemma tlookup_In {A} n (k : A) c : tlookup n c = Some k -> In n (map fst c).
+Proof.
+  induction c as [| [m v] r IH]; cbn [tlookup map fst]; [discriminate |].
+  destruct (text_eqb n m) eqn:E; [apply text_eqb_eq in E; left; now subst | right; auto].
+Qed.
+
+Lemma spec_items_nonlcd seen x r :
+  (forall d, x <> ILcd d) -> spec_items seen (x :: r) = spec_item seen x ++ spec_items seen r.
+Proof. intro H. destruct x; try reflexivity. exfalso. exact (H d eq_refl). Qed.
+
+(* the top-level statements of setup_body: every command addresses the object of the latest
+   declaration of its name, and the invariant is re-established after every declaration *)
+Lemma res_items_setup N : forall l pre seen c,
+  lcd_top_only l = true -> cmds_follow_decl seen l = true ->
+  (forall x, count_t x seen = count_t x (top_lcd_names pre)) ->
+  inv seen c -> (forall n k, tlookup n c = Some k -> In n N) -> incl (top_lcd_names l) N ->
+  exists c',
+    res_items (bindings_from 0 [] (pre ++ l)) true (mkR c (nlcd pre)) l =
+      (spec_items seen l, mkR c' (nlcd (pre ++ l))) /\
+    inv (rev (top_lcd_names l) ++ seen) c' /\ (forall n k, tlookup n c' = Some k -> In n N).
+Proof.
+  induction l as [| x r IH]; intros pre seen c Htop Hcmd Hcount Hinv Hdom HN.
+  - exists c. rewrite app_nil_r. cbn. auto.
+  - cbn [lcd_top_only forallb] in Htop. apply andb_true_iff in Htop as [Hx Htop].
+    assert (Eapp : pre ++ x :: r = (pre ++ [x]) ++ r) by (rewrite <- app_assoc; reflexivity).
+    destruct x as [d | d | | | n | bl].
+    2: { (* a declaration *)
+      cbn [cmds_follow_decl] in Hcmd. cbn [top_lcd_names] in HN.
+      set (k := count_t (l_name d) seen).
+      assert (Ereg : register_top (bindings_from 0 [] (pre ++ ILcd d :: r)) (nlcd pre) (l_name d) c = (l_name d, k) :: c).
+      { unfold register_top. destruct (tlookup (l_name d) c) as [k0 |] eqn:El.
+        - rewrite find_binding. cbn [b_index]. unfold k. now rewrite Hcount.
+        - unfold k. destruct (Z.eq_dec (count_t (l_name d) seen) 0) as [-> | Hne]; [reflexivity |].
+          pose proof (count_t_nonneg (l_name d) seen).
+          rewrite (Hinv (l_name d)) in El by lia. discriminate. }
+      destruct (IH (pre ++ [ILcd d]) (l_name d :: seen) ((l_name d, k) :: c)) as [c' [E [Hinv' Hdom']]].
+      - exact Htop.
+      - exact Hcmd.
+      - intro x. rewrite top_lcd_names_app, count_t_app. cbn [top_lcd_names count_t]. rewrite Hcount. lia.
+      - intros m Hm. destruct (text_eqb m (l_name d)) eqn:Em.
+        + apply text_eqb_eq in Em. subst m. rewrite tlookup_cons_same, count_t_cons_same. unfold k. f_equal. lia.
+        + assert (Hne : m <> l_name d) by (intro H; apply text_eqb_eq in H; congruence).
+          rewrite tlookup_cons_other by exact Hne. rewrite count_t_cons_other in * by exact Hne. apply Hinv. exact Hm.
+      - intros m v Hm. destruct (text_eqb m (l_name d)) eqn:Em.
+        + apply text_eqb_eq in Em. subst m. apply HN. left. reflexivity.
+        + assert (Hne : m <> l_name d) by (intro H; apply text_eqb_eq in H; congruence).
+          rewrite tlookup_cons_other in Hm by exact Hne. eapply Hdom. exact Hm.
+      - intros m Hm. apply HN. right. exact Hm.
+      - exists c'. split; [| split; [| exact Hdom']].
+        + unfold res_items in *. rewrite thread_cons. cbn [res_item r_cur r_ord]. rewrite Ereg.
+          rewrite Eapp. replace (nlcd pre + 1) with (nlcd (pre ++ [ILcd d])).
+          * rewrite <- Eapp at 1. rewrite Eapp. rewrite E. reflexivity.
+          * unfold nlcd. rewrite top_lcd_names_app, app_length. cbn [top_lcd_names length]. lia.
+        + cbn [top_lcd_names rev]. rewrite <- app_assoc. exact Hinv'. }
+    all: (* not a declaration *)
+      cbn [cmds_follow_decl] in Hcmd; apply andb_true_iff in Hcmd as [Hc Hcmd];
+      match goal with |- context [res_items _ true _ (?y :: _)] => set (x := y) in * end;
+      assert (Hn : top_lcd_names [x] = []) by reflexivity;
+      (destruct (IH (pre ++ [x]) seen c) as [c' [E [Hinv' Hdom']]];
+       [ exact Htop | exact Hcmd
+       | intro z; rewrite top_lcd_names_app, Hn, app_nil_r; apply Hcount
+       | exact Hinv | exact Hdom | exact HN | ]);
+      exists c'; (split; [| split; [exact Hinv' | exact Hdom']]);
+      unfold res_items in *; rewrite thread_cons;
+      rewrite (res_item_free _ seen c x true (nlcd pre) Hx Hinv (or_introl Hc));
+      rewrite Eapp;
+      replace (nlcd pre) with (nlcd (pre ++ [x])) by (unfold nlcd; rewrite top_lcd_names_app, Hn, app_nil_r; reflexivity);
+      rewrite E; rewrite spec_items_nonlcd by (intros d' Hd'; discriminate Hd'); reflexivity.
+Qed.
+
+Lemma count_t_rev x l : count_t x (rev l) = count_t x l.
+Proof.
+  induction l as [| y r IH]; [reflexivity |]. cbn [rev]. rewrite count_t_app, IH. cbn [count_t]. lia.
+Qed.
+
+Lemma count_t_In x l : In x l -> 0 < count_t x l.
+Proof.
+  induction l as [| y r IH]; intro H; [destruct H | destruct H as [<- | H]].
+  - rewrite count_t_cons_same. pose proof (count_t_nonneg y r). lia.
+  - specialize (IH H). pose proof (count_t_cons_le x y r). lia.
+Qed.
+
+(* (b) inside the quantifier (displays declared at the top level before the main loop; the parser
+   never produces a command before the first declaration of its name) every emitted LCD command
+   - in setup(), at any nesting depth; in loop(); in every function body - addresses the display
+   object of the reference semantics *)
+Theorem resolve_spec p :
+  lcds_at_top p = true -> cmds_follow_decl [] (d_setup p) = true ->
+  let names := rev (top_lcd_names (d_setup p)) in
+  resolve p = (spec_items [] (d_setup p),
+               flat_map (spec_item names) (d_loop p),
+               map (fun f => flat_map (spec_item names) f) (d_functions p)).
+Proof.
+  intros Hg Hc names. unfold lcds_at_top in Hg.
+  apply andb_true_iff in Hg as [Hg Hfn]. apply andb_true_iff in Hg as [Hs Hl].
+  unfold resolve. set (bs := bindings_from 0 [] (d_setup p)).
+  destruct (res_items_setup (top_lcd_names (d_setup p)) (d_setup p) [] [] (cur_after_pass1 bs))
+    as [c' [E [Hinv Hdom]]].
+  - exact Hs.
+  - exact Hc.
+  - reflexivity.
+  - intros n Hn. cbn in Hn. lia.
+  - intros n k Hl'. apply tlookup_In in Hl'.
+    assert (Em : map fst (cur_after_pass1 bs) = rev (map b_name bs))
+      by (unfold cur_after_pass1; rewrite map_rev, map_map; reflexivity).
+    rewrite Em in Hl'. apply in_rev in Hl'.
+    unfold bs in Hl'. rewrite (bindings_from_names (d_setup p) 0 []) in Hl'. exact Hl'.
+  - apply incl_refl.
+  - cbn [app] in E. change (nlcd []) with 0 in E. fold bs in E. rewrite E.
+    rewrite app_nil_r in Hinv.
+    assert (Hd : dom names c').
+    { intros n k Hn. unfold names. rewrite count_t_rev. apply count_t_In. eapply Hdom. exact Hn. }
+    rewrite (res_items_free bs names c' false _ (d_loop p) Hl Hinv Hd).
+    f_equal. apply map_ext_in. intros f Hf.
+    rewrite forallb_forall in Hfn.
+    rewrite (res_items_free bs names c' false _ f (Hfn f Hf) Hinv Hd). reflexivity.
+Qed.
+
+Lemma spec_items_app a : forall seen b,
+  spec_items seen (a ++ b) = spec_items seen a ++ spec_items (rev (top_lcd_names a) ++ seen) b.
+Proof.
+  induction a as [| x r IH]; intros seen b; [reflexivity |].
+  destruct x; cbn [app spec_items top_lcd_names]; try (rewrite IH, <- app_assoc; reflexivity).
+  rewrite IH. cbn [rev]. rewrite <- app_assoc. reflexivity.
+Qed.
+
+(* the reference semantics, said in the words of the task: a command on n that follows c > 0
+   top-level declarations of n addresses the object of the c-th one (index c - 1) *)
+Theorem spec_command_after_kth_binding seen pre n post :
+  let c := count_t n (top_lcd_names pre) + count_t n seen in
+  0 < c ->
+  spec_items seen (pre ++ ICmd n :: post) =
+  spec_items seen pre ++ recv (c - 1) n :: spec_items (rev (top_lcd_names pre) ++ seen) post.
+Proof.
+  intros c Hc. rewrite spec_items_app. f_equal. cbn [spec_items spec_item].
+  rewrite count_t_app, count_t_rev. fold c.
+  replace (0 <? c) with true by (symmetry; apply Z.ltb_lt; exact Hc). reflexivity.
+Qed.
+
+(* ... and that object is the one defined, with the constructor arguments of that declaration,
+   by the latest declaration of the name before the command *)
+Theorem command_addresses_its_declaration p pre d mid post :
+  d_setup p = pre ++ ILcd d :: mid ++ ICmd (l_name d) :: post ->
+  count_t (l_name d) (top_lcd_names mid) = 0 ->
+  let k := count_t (l_name d) (top_lcd_names pre) in
+  In (d, k) (lcd_defs p) /\
+  In (lcd_obj_line d k) (lib_globals p) /\
+  spec_items [] (d_setup p) =
+    spec_items [] (pre ++ ILcd d :: mid) ++
+    (lcd_ident k (l_name d), lcd_cols_var k (l_name d)) ::
+    spec_items (rev (top_lcd_names (pre ++ ILcd d :: mid))) post.
+Proof.
+  intros E Hmid k.
+  assert (Hin : In (d, k) (lcd_defs p)) by (eapply lcd_defs_at; exact E).
+  split; [exact Hin | split].
+  - apply lib_globals_In. right. exists (d, k). split; [exact Hin |]. cbn [fst snd lcd_global_lines]. left. reflexivity.
+  - rewrite E. replace (pre ++ ILcd d :: mid ++ ICmd (l_name d) :: post)
+      with ((pre ++ ILcd d :: mid) ++ ICmd (l_name d) :: post) by (rewrite <- app_assoc; reflexivity).
+    rewrite spec_command_after_kth_binding.
+    + rewrite app_nil_r. f_equal. f_equal. unfold recv. f_equal; f_equal;
+        rewrite top_lcd_names_app; cbn [top_lcd_names]; rewrite count_t_app, count_t_cons_same, Hmid; cbn [count_t]; unfold k; lia.
+    + rewrite top_lcd_names_app. cbn [top_lcd_names]. rewrite count_t_app, count_t_cons_same, Hmid.
+      pose proof (count_t_nonneg (l_name d) (top_lcd_names pre)). cbn [count_t]. lia.
+Qed.
+
+(* ================================================================== non-vacuity *)
+Definition ex_par (n : text) (rs : Z) (bl : val) : lcdd :=
+  mkLcd n false (VInt 16) (VInt 2) (VInt rs) (VInt 11) (VInt 5) (VInt 4) (VInt 3) (VInt 2) VNone bl VNone.
+Definition ex_i2c (n : text) (addr : Z) : lcdd :=
+  mkLcd n true (VInt 20) (VInt 4) VNone VNone VNone VNone VNone VNone VNone VNone (VInt addr).
+
+(* lcd = LCD(rs=12..); lcd.x; if ..: lcd.x; lcd = LCD(i2c_addr=39); lcd.x; sv = Servo(9, 600.5, 2400)
+   loop: lcd.x    def f(): lcd.x *)
+Definition ex_prog : dprog :=
+  mkDProg [ILcd (ex_par [108] 12 (VInt 44)); ICmd [108]; IBlock [[ICmd [108]]; []];
+           ILcd (ex_i2c [108] 39); ICmd [108];
+           IServo (mkServo [115] (VInt 9) (PFloat (1201 # 2)) (PInt 2400))]
+          [ICmd [108]; IPlain] [[ICmd [108]]] [].
+
+Lemma ex_prog_facts :
+  lcds_at_top ex_prog = true /\ cmds_follow_decl [] (d_setup ex_prog) = true /\
+  map snd (lcd_defs ex_prog) = [0; 1] /\
+  resolve ex_prog =
+    ([recv 0 [108]; recv 0 [108]; recv 1 [108]], [recv 1 [108]], [[recv 1 [108]]]) /\
+  headers (erase_prog ex_prog) = [HServo; HLiquidCrystal; HWire; HLiquidCrystalI2C] /\
+  length (lib_globals ex_prog) = 9%nat /\ length (lib_init ex_prog) = 9%nat /\
+  nearest (1201 # 2) = 601.
+Proof. vm_compute. repeat split; reflexivity. Qed.
+
+(* composition with the library lists of Tool/Libs.v: the class of every defined object is
+   included and requested *)
+Theorem defined_class_requested p dk :
+  In dk (lcd_defs p) ->
+  In (class_of (fst dk)) (includes (erase_prog p)) /\ In (class_of (fst dk)) (required (erase_prog p)).
+Proof.
+  intro Hin.
+  assert (Hi : In (class_of (fst dk)) (includes (erase_prog p))).
+  { apply includes_iff_top. unfold class_of, lcd_defs in *. cbn [erase_prog setup].
+    destruct (l_i2c (fst dk)) eqn:Ei; [eapply erase_i2c | eapply erase_par]; eassumption. }
+  split; [exact Hi | apply includes_incl_required; exact Hi].
+Qed.
+
+Theorem servo_class_requested p d :
+  In d (servo_decls p) ->
+  In LServo (includes (erase_prog p)) /\ In LServo (required (erase_prog p)).
+Proof.
+  intro Hin.
+  assert (Hi : In LServo (includes (erase_prog p))).
+  { apply includes_iff_top. unfold servo_decls in Hin. cbn [erase_prog setup loop].
+    apply in_app_or in Hin as [H | H]; apply erase_servo in H; auto. }
+  split; [exact Hi | apply includes_incl_required; exact Hi].
+Qed.
+
+Theorem every_object_has_a_declaration (p : dprog) (dk : lcdd * Z) :
+  In dk (lcd_defs p) ->
+  exists pre post, d_setup p = pre ++ ILcd (fst dk) :: post /\
+                   snd dk = count_t (l_name (fst dk)) (top_lcd_names pre).
+Proof.
+  intro H. destruct (lcd_defs_origin _ _ _ H) as [pre [post [E C]]].
+  exists pre, post. split; [exact E |]. rewrite C. cbn [count_t]. apply Z.add_0_r.
+Qed.
+
+Theorem servo_attached_as_declared (p : dprog) (pre post : list item) (d : servod) :
+  (d_setup p = pre ++ IServo d :: post /\ ~ In (s_name d) (map s_name (top_servos pre))) \/
+  (d_loop p = pre ++ IServo d :: post /\ ~ In (s_name d) (map s_name (top_servos (d_setup p))) /\
+   ~ In (s_name d) (map s_name (top_servos pre))) ->
+  exists a b, lib_init p = a ++ servo_init_lines d ++ b.
+Proof.
+  intros [[E H] | [E [H1 H2]]];
+    [eapply servo_init_block_setup | eapply servo_init_block_loop]; eassumption.
+Qed.
